@@ -11,8 +11,7 @@ Notation exec := (exec fixed).
 Lemma inv_set_obytes X W D T G s d v :
   inv X W D T G s -> inv X W D T G (set_obytes s (upd (obytes s) d v)).
 Proof.
-  intros Hi. eapply inv_irrelevant; try exact Hi; try reflexivity.
-  intros e He. simpl_st. apply (i_fresh _ _ _ _ _ _ _ Hi e He).
+  intros Hi. eapply inv_irrelevant; try exact Hi; reflexivity.
 Qed.
 
 Lemma shrink_obytes s d v : shrink s (set_obytes s (upd (obytes s) d v)).
@@ -151,8 +150,7 @@ Qed.
 Lemma inv_set_osize X W D T G s d v :
   inv X W D T G s -> inv X W D T G (set_osize s (upd (osize s) d v)).
 Proof.
-  intros Hi. eapply inv_irrelevant; try exact Hi; try reflexivity.
-  intros e He. simpl_st. apply (i_fresh _ _ _ _ _ _ _ Hi e He).
+  intros Hi. eapply inv_irrelevant; try exact Hi; reflexivity.
 Qed.
 
 Lemma shrink_osize s d v : shrink s (set_osize s (upd (osize s) d v)).
